@@ -192,7 +192,16 @@ class MainModel:
                     fn = self.eff.resolve_callee(call.get("callee_sig"), call.get("callee"), cls if call.get("callee_virtual") else None) or callee
                     if fn is None or not fn.get("body"):
                         continue
-                    sm = self.eff.summary(fn, cls if call.get("callee_virtual") else None)
+                    known = {}
+                    for pn, a_ in zip([p["name"] for p in fn["params"]], call.get("args", [])):
+                        c_ = A.strip(a_)
+                        if c_.get("k") == "DeclRefExpr" and c_.get("dkind") == "EnumConstant":
+                            known[pn] = c_["enumval"]
+                        elif c_.get("k") == "IntegerLiteral":
+                            known[pn] = c_["value"]
+                        elif c_.get("k") == "CXXBoolLiteralExpr":
+                            known[pn] = 1 if c_["value"] else 0
+                    sm = self.eff.summary(fn, cls if call.get("callee_virtual") else None, known=known)
                     argmap = {}
                     names = [p["name"] for p in fn["params"]]
                     for pn, a_ in zip(names, call.get("args", [])):
@@ -226,25 +235,174 @@ class MainModel:
                                 for v in cur:
                                     out.add((v, f, sel))
                         return out
-                    r, w = lift(sm.reads), lift(sm.writes)
+                    argnode = dict(zip(names, call.get("args", [])))
+
+                    def subst(locs):
+                        out = set()
+                        for (op, f, sel) in locs:
+                            if isinstance(sel, tuple) and sel[0] == "param":
+                                a_ = argnode.get(sel[1])
+                                sel = E._first_sel(a_, set()) if a_ is not None else None
+                            out.add((op, f, sel))
+                        return out
+                    r, w = lift(subst(sm.reads)), lift(subst(sm.writes))
                     reads_all |= r
                     writes_may |= w
                     writes_must = w if writes_must is None else (writes_must & w)
                     alts_used.append(cls)
                 res = dict(var=var, method=(call.get("callee") or "").split("::")[-1], reads=reads_all,
                            writes=writes_must or set(), may_writes=writes_may, alts=alts_used, node=call)
+        if res is not None and not call.get("callee_virtual"):
+            callee = self.prog.functions.get(call.get("callee_sig"))
+            seq = self._this_call_sequence(callee) if callee is not None else None
+            if seq:
+                subs = []
+                for sub in seq:
+                    fake = dict(sub)
+                    fake["fn"] = call["fn"]          # same receiver
+                    fake["id"] = -sub["id"] - 1000000 * (call["id"] % 1000)
+                    se = self.call_effects(fake)
+                    if se is None:
+                        subs = None
+                        break
+                    subs.append(se)
+                if subs:
+                    res["sequence"] = subs
         self._cache[call["id"]] = res
         return res
 
-    def events(self):
+    def _this_call_sequence(self, fn):
+        """if the body of fn is just a sequence of calls on its own object (plus a return), the list of those calls"""
+        body = fn.get("body")
+        if not body or body["k"] != "CompoundStmt":
+            return None
+        calls = []
+        for st in body.get("c", []):
+            x = A.strip(st, casts=False)
+            if x["k"] == "ReturnStmt":
+                continue
+            if x["k"] == "CXXMemberCallExpr" and x.get("callee_in_root") and (A.call_object(x) is None or A.is_this(A.call_object(x))) and not x.get("args"):
+                calls.append(x)
+            else:
+                return None
+        return calls if len(calls) >= 2 else None
+
+    def events(self, cfg=None):
         """all member calls on main objects, in CFG blocks (block id, index, node, effects)"""
         out = []
-        for bid, b in self.cfg.blocks.items():
-            if bid not in self.cfg.reach_from_entry:
+        cfg = cfg or self.cfg
+        for bid, b in cfg.blocks.items():
+            if bid not in cfg.reach_from_entry:
                 continue
             for i, n in enumerate(b["elems"]):
                 if n.get("k") == "CXXMemberCallExpr":
                     e = self.call_effects(n)
                     if e is not None:
                         out.append((bid, i, n, e))
+        return out
+
+
+    # -- loop-invariant null tests -------------------------------------------------------------------
+    def main_loop(self):
+        wh = [x for x in A.walk(self.fn["body"]) if x["k"] == "WhileStmt"]
+        loops = [w for w in wh if any(y["k"] == "DeclRefExpr" and y["name"] == "simulationstep" for y in A.walk(w["cond"]))]
+        A.require(len(loops) == 1, "main: simulation loop not found")
+        return loops[0]
+
+    def null_invariants(self):
+        """pointer-like locals that are only assigned before the simulation loop, grouped into classes of variables
+        that receive their non-null value in the same basic block (hence are null / non-null together)"""
+        loop = self.main_loop()
+        loop_ids = {y["id"] for y in A.walk(loop)}
+        cand = {}
+        for x in A.walk(self.fn["body"]):
+            if x["k"] == "DeclStmt":
+                for d in x["decls"]:
+                    t = d.get("ctype") or ""
+                    if d.get("k") == "VarDecl" and (t.endswith("*") or "shared_ptr<" in t or "unique_ptr<" in t):
+                        cand[d["name"]] = d
+        assigned_at = {v: [] for v in cand}
+        for x in A.walk(self.fn["body"]):
+            tgt = None
+            if x["k"] in ("BinaryOperator", "CXXOperatorCallExpr") and x.get("op") == "=":
+                lhs = x["c"][0] if x["k"] == "BinaryOperator" else x["args"][0]
+                tgt = plain_var(lhs)
+            elif x["k"] == "CXXMemberCallExpr" and (x.get("callee") or "").endswith("::reset"):
+                tgt = plain_var(A.call_object(x))
+            if tgt is not None and tgt["name"] in cand:
+                assigned_at[tgt["name"]].append(x)
+        inv = {}
+        for v, sites in assigned_at.items():
+            if any(s_["id"] in loop_ids or s_["line"] > loop["line"] for s_ in sites):
+                continue
+            blocks = set()
+            for s_ in sites:
+                pos = self.cfg.where(s_)
+                if pos is not None:
+                    blocks.add(pos[0])
+            inv[v] = frozenset(blocks)
+        # only variables that are actually null-tested
+        tested = set()
+        for b in self.cfg.blocks.values():
+            c = b.get("cond")
+            if c is not None:
+                t = self.null_test(c)
+                if t is not None:
+                    tested.add(t[0])
+        classes = {}
+        for v, bl in inv.items():
+            if v in tested:
+                classes.setdefault(bl, set()).add(v)
+        return [frozenset(vs) for vs in classes.values()]
+
+    @staticmethod
+    def null_test(cond):
+        """(variable, True if the condition means 'non-null') for X, !X, X != nullptr, X == nullptr"""
+        c = A.strip(cond)
+        neg = False
+        while c.get("k") == "UnaryOperator" and c.get("op") == "!":
+            neg = not neg
+            c = A.strip(c["c"][0])
+        if c.get("k") == "BinaryOperator" and c.get("op") in ("!=", "=="):
+            l, r = A.strip(c["c"][0]), A.strip(c["c"][1])
+            for a_, b_ in ((l, r), (r, l)):
+                if b_.get("k") in ("CXXNullPtrLiteralExpr", "GNUNullExpr") or (b_.get("k") == "IntegerLiteral" and b_.get("value") == 0):
+                    d = A.declref(a_)
+                    if d is not None:
+                        return d["name"], (c["op"] == "!=") != neg
+            return None
+        if c.get("k") == "CXXOperatorCallExpr" and c.get("op") in ("!=", "==") and len(c.get("args", [])) == 2:
+            l, r = A.strip(c["args"][0]), A.strip(c["args"][1])
+            for a_, b_ in ((l, r), (r, l)):
+                if b_.get("k") == "CXXNullPtrLiteralExpr":
+                    d = A.declref(a_)
+                    if d is not None:
+                        return d["name"], (c["op"] == "!=") != neg
+            return None
+        if c.get("k") == "CXXMemberCallExpr" and "operator bool" in (c.get("callee") or ""):
+            d = plain_var(A.call_object(c))
+            if d is not None:
+                return d["name"], not neg
+        d = A.declref(c)
+        if d is not None and ((d.get("dtype") or "").endswith("*")):
+            return d["name"], not neg
+        return None
+
+    def case_split(self):
+        """[(assumption {var: bool}, pruned CFG)] over all truth assignments of the null-invariant classes"""
+        import itertools
+        classes = self.null_invariants()
+        out = []
+        for bits in itertools.product([True, False], repeat=len(classes)):
+            asg = {}
+            for cl, b in zip(classes, bits):
+                for v in cl:
+                    asg[v] = b
+
+            def decide(cond, asg=asg):
+                t = self.null_test(cond)
+                if t is None or t[0] not in asg:
+                    return None
+                return asg[t[0]] == t[1]
+            out.append((asg, self.cfg.pruned(decide)))
         return out
